@@ -87,8 +87,9 @@ fn main() {
             props::c0607::run("C07", &tier, seed, &out);
             0
         }
-        "c06-one" => props::c0607::replay_one("C06", &arg(&args, "--fen").unwrap(), arg(&args, "--depth").unwrap().parse().unwrap(), &arg(&args, "--at").unwrap()),
-        "c07-one" => props::c0607::replay_one("C07", &arg(&args, "--fen").unwrap(), arg(&args, "--depth").unwrap().parse().unwrap(), &arg(&args, "--at").unwrap()),
+        "c06-one" => props::c0607::replay_one("C06", &arg(&args, "--fen").unwrap(), arg(&args, "--depth").unwrap().parse().unwrap(), &arg(&args, "--at").unwrap(), arg(&args, "--final-depth").and_then(|x| x.parse().ok())),
+        "c07-one" => props::c0607::replay_one("C07", &arg(&args, "--fen").unwrap(), arg(&args, "--depth").unwrap().parse().unwrap(), &arg(&args, "--at").unwrap(), None),
+        "c06-history" => props::c0607::replay_history(&arg(&args, "--fen").unwrap(), arg(&args, "--depth").unwrap().parse().unwrap(), arg(&args, "--at").unwrap().parse().unwrap()),
         "c10" => {
             props::c10::run(&tier, seed, &out);
             0
